@@ -7,6 +7,8 @@ defined in __main__ would be pickled by value and get a forked copy of these
 globals.)  Nothing here imports the code under test.
 """
 
+import numpy as np
+
 CALLS = []            # call log: one tuple per call of a fixture callable
 STATE = {'n': 0}      # call counter of the stateful callables
 
@@ -26,6 +28,10 @@ def _r(x):
     return {str(k): _r(v) for k, v in x.items()}
   if isinstance(x, Acc):
     return ['Acc', _r(x.a), _r(x.b)]
+  if isinstance(x, Tok):
+    return ['Tok', x.name]
+  if isinstance(x, np.ndarray):
+    return ['ndarray', x.tolist()]
   return '<obj>'      # a lazy handle (implementation) / a Handle (mirror)
 
 
@@ -116,3 +122,39 @@ class Scale:
 
 
 SCALE3 = Scale(3)
+
+
+class Tok:
+  """A plain object: no __eq__/__hash__, so a copy is not equal to it."""
+
+  def __init__(self, name):
+    self.name = name
+
+
+_OPAQUE = {}
+
+
+def opaque(name):
+  """Unhashable constants that are NOT value-equal across (pickled) copies.
+
+  'toks' / 'tok:<i>'  a list holding plain instances without __eq__
+  'dtok'              a dict holding one
+  'arr' / 'arr:<i>'   a numpy array (== is elementwise, not a bool)
+  One object per name and process (an expression refers to the same constant
+  wherever the name occurs); a serialised copy of the expression carries its
+  own copy of the constant.
+  """
+  if name not in _OPAQUE:
+    kind, _, i = name.partition(':')
+    if kind == 'toks':
+      v = [Tok('a'), Tok('b')]
+    elif kind == 'tok':
+      v = [Tok(int(i))]
+    elif kind == 'dtok':
+      v = {'t': Tok('d')}
+    elif kind == 'arr':
+      v = np.array([1, 2, 3]) if not i else np.array([int(i), int(i) + 1])
+    else:
+      raise KeyError(name)
+    _OPAQUE[name] = v
+  return _OPAQUE[name]
